@@ -1,10 +1,10 @@
 Require Extraction.
 Require Import ExtrOcamlBasic.
 From Coq Require Import NArith ZArith List.
-From CppcmsV Require Import C20.Defs C20.PoolDefs.
+From CppcmsV Require Import C20.Defs C20.PoolDefs C20.MountVals.
 Definition keep_types : (N * Z * nat) := (0%N, 0%Z, 0%nat).
 Extraction "c20m.ml" keep_types beq full_match rprint pat_print route_match route_ok nparams route_fill route_template
   params_okb pat_match dispatch app_main mp_match pool_lookup route_request parse_tmpl app_table build_ok
   real_map map_output map_at mounts_once build loc_of valid_text
   rw_parse mk_rule rw_apply urldecode pick_script serve
-  ps_empty mount_app mount_legacy kill unmount lookup lookups route_ps serve_ps legacy_ids order purge run run_ref state_after.
+  ps_empty mount_app mount_legacy kill unmount lookup lookups route_ps serve_ps legacy_ids order purge run run_ref state_after collect_vals.
